@@ -23,7 +23,7 @@ class OutOfDomain(Exception):
 
 class R:
     """resolved node: flags made effective"""
-    __slots__ = ('kind', 'prio', 'xdel', 'dele', 'v', 'ch', 'md', 'stage', 'xnew', 'anew', 'vdel', 'tag')
+    __slots__ = ('kind', 'prio', 'xdel', 'dele', 'v', 'ch', 'md', 'stage', 'xnew', 'anew', 'vdel', 'tag', 'idel', 'inew')
 
     def __init__(self, kind, **kw):
         self.kind = kind
@@ -38,6 +38,8 @@ class R:
         self.anew = True      # effective: may this node itself be created?
         self.vdel = False
         self.tag = None
+        self.idel = None      # delete flag handed down by the parent (None = nothing inherited)
+        self.inew = None      # allow-new flag handed down by the parent
         for k, x in kw.items():
             setattr(self, k, x)
 
@@ -101,6 +103,7 @@ def resolve(n, stage=0, inh_prio=None, inh_del=None, inh_new=None):
     r.stage = stage
     r.xnew = n.get('new')
     r.anew = True if inh_new is None else inh_new
+    r.idel, r.inew = inh_del, inh_new
     if t in ('map', 'seq'):
         # what children inherit: explicit flag, else (type default or inherited)
         cdel = xdel if xdel is not None else (inh_del if inh_del is not None else (True if t == 'seq' else None))
@@ -137,6 +140,36 @@ def nearest(root, rel):
             break
         cur = nxt
     return cur
+
+
+def drop_outranked(O, node, rel):
+    """list pre-filter: a deleting element of the newer node that is outranked by the element it would replace (or by the
+    list itself, if it would be appended) is dropped together with everything below it.  Only direct children take part:
+    whatever is nested deeper competes when the corresponding nodes are merged."""
+    keep = []
+    for k, c in node.items():
+        cur = O.get(k)
+        if cur is None:
+            cur = O
+        if c.dele and c.prio < cur.prio:
+            continue
+        keep.append((k, c))
+    if node.kind == 'map':
+        node.ch = dict(keep)
+    else:
+        node.ch = [c for _, c in keep]
+
+
+def nearest_exact_depth(root, rel):
+    cur, depth = root, 0
+    for c in rel:
+        if not cur.composed() or (cur.kind == 'seq' and (isinstance(c, bool) or not isinstance(c, int) or c < 0)):
+            break
+        nxt = cur.get(c)
+        if nxt is None:
+            break
+        cur, depth = nxt, depth + 1
+    return cur, depth
 
 
 def nearest_exact(root, rel):
@@ -204,11 +237,7 @@ def merge(O, N, path=(), strict_domain=False):
                 raise ModelError('MergeError', f'mapping key {k!r} does not address an existing index of the list at {path!r}', path)
     if O.kind == 'seq':
         # newer deleting nodes that are outranked by what the list already holds are dropped first
-        def keep_new(rel, d):
-            if not d.dele:
-                return True
-            return d.prio >= nearest_exact(O, rel).prio
-        filt(N, keep_new)
+        drop_outranked(O, N, ())
     if N.dele:
         removed = set()
         filt(O, lambda rel, e: e.prio > nearest(N, rel).prio, removed=removed)
@@ -300,12 +329,27 @@ def remove_at(root, path):
     return node
 
 
-def _adopt(elems, target):
-    """elements appended to an existing list take the flags that list hands to its children"""
-    for e in elems:
-        for _, x in walk(e):
-            x.prio = x.prio
-    return elems
+def child_flags(r):
+    """(delete, allow_new) flags a container hands down to its children"""
+    cdel = r.xdel if r.xdel is not None else (r.idel if r.idel is not None else (True if r.kind == 'seq' else None))
+    cnew = r.xnew if r.xnew is not None else r.inew
+    return cdel, cnew
+
+
+def reinherit(r, idel, inew):
+    """a node that is moved to another place keeps its explicit flags and inherits the rest from its new parent"""
+    r.idel, r.inew = idel, inew
+    if r.xdel is not None:
+        r.dele = r.xdel
+    elif idel is not None:
+        r.dele = idel
+    else:
+        r.dele = r.kind == 'seq'
+    r.anew = True if inew is None else inew
+    if r.composed():
+        cdel, cnew = child_flags(r)
+        for _, c in r.items():
+            reinherit(c, cdel, cnew)
 
 
 def premerge(acc, n, path=()):
@@ -313,6 +357,7 @@ def premerge(acc, n, path=()):
     *move* it into the newer tree (!clear empties it, !prev moves it elsewhere, !append/!extend grow it)"""
     if not n.composed():
         return
+    cdel, cnew = child_flags(n)
     for k, c in n.items():
         here = path + (k,)
         if c.kind == 'clear':
@@ -322,11 +367,13 @@ def premerge(acc, n, path=()):
             if not tgt.composed():
                 raise ModelError('PremergeError', f'!clear at {here!r}: not a container', here)
             tgt.ch = {} if tgt.kind == 'map' else []
+            reinherit(tgt, cdel, cnew)
             n.ch[k] = tgt
         elif c.kind == 'prev':
             tgt = remove_at(acc, parse_path(c.v))
             if tgt is None:
                 raise ModelError('PremergeError', f'!prev {c.v!r}: no such node', here)
+            reinherit(tgt, cdel, cnew)
             n.ch[k] = tgt
         elif c.kind == 'append':
             tgt = remove_at(acc, here)
@@ -335,15 +382,19 @@ def premerge(acc, n, path=()):
             if tgt.kind != 'seq':
                 raise ModelError('PremergeError', f'!append at {here!r}: not a list', here)
             tgt.ch.extend(c.ch)
+            reinherit(tgt, cdel, cnew)
             n.ch[k] = tgt
         elif c.kind == 'extend':
             tgt = lookup(acc, here)
             if tgt is not None and tgt.kind == 'seq':
                 remove_at(acc, here)
                 tgt.ch.extend(c.ch)
+                reinherit(tgt, cdel, cnew)
                 n.ch[k] = tgt
             else:
-                n.ch[k] = R('seq', ch=list(c.ch), dele=True, prio=c.prio, stage=c.stage, anew=c.anew)
+                fresh = R('seq', ch=list(c.ch), prio=c.prio, stage=c.stage)
+                reinherit(fresh, cdel, cnew)
+                n.ch[k] = fresh
         else:
             premerge(acc, c, here)
 
